@@ -210,6 +210,7 @@ def run(suites, props=None, keys=None, timeout_ms=10000, procs=None, src=None, q
                     pass
         pending.append(job)
     running = []   # (proc, conn, job, t_start)
+    retries = {}
     while pending or running:
         while pending and len(running) < procs:
             job = pending.pop(0)
@@ -224,7 +225,14 @@ def run(suites, props=None, keys=None, timeout_ms=10000, procs=None, src=None, q
                 try:
                     r = conn.recv()
                 except EOFError:
-                    r = _dead_unit(job, 'worker died')
+                    # the solver library occasionally crashes a worker (segfault in libz3): not a verdict;
+                    # the unit is started again, up to two more times
+                    p.join(5)
+                    retries[job[:3]] = retries.get(job[:3], 0) + 1
+                    if retries[job[:3]] <= 2:
+                        pending.append(job)
+                        continue
+                    r = _dead_unit(job, 'worker died (%d attempts)' % retries[job[:3]])
                 p.join(5)
                 if use_cache and not r.get('timeout') and not r.get('error'):
                     try:
@@ -234,7 +242,11 @@ def run(suites, props=None, keys=None, timeout_ms=10000, procs=None, src=None, q
                         pass
                 report(r)
             elif not p.is_alive():
-                report(_dead_unit(job, 'worker exited without a result'))
+                retries[job[:3]] = retries.get(job[:3], 0) + 1
+                if retries[job[:3]] <= 2:
+                    pending.append(job)
+                else:
+                    report(_dead_unit(job, 'worker exited without a result (%d attempts)' % retries[job[:3]]))
             elif time.time() - t_start > unit_limit:
                 p.kill()
                 p.join(5)
